@@ -420,7 +420,15 @@ pub fn construct_class(core: &str) -> Option<&'static str> {
     let reference_ran = matches!(res, Ok(_) | Err(crate::refeval::Stop::Error(_)));
     for (class, ev) in statics {
         match ev {
-            Some(e) if reference_ran && !events.contains(e) => continue,
+            // exercised (events recorded before the reference stopped or abstained are facts)
+            Some(e) if events.contains(e) => return Some(class),
+            // the reference ran to completion without exercising it
+            Some(_) if reference_ran => continue,
+            // incomplete reference run: nearly every program binds something, so without a nil
+            // seen reaching a nil-accepting pattern this class explains nothing ...
+            Some("nil-accepted") => continue,
+            // ... for the others, and for classes without a dynamic event, the construct's
+            // presence stands
             _ => return Some(class),
         }
     }
